@@ -1,2 +1,94 @@
-(** C01 property theorems (to be filled). *)
-From PKO Require Import Base.
+(** C01 — Collision protection: foreign objects are never taken over unasked.
+    Statements only; every proof is [exact <lemma>]. Model: theories/Owner.v, Api.v, Phase.v.
+    [permitted] is the property's wording of "adoption is permitted" (AdoptionProofs.v). *)
+From Coq Require Import List NArith ZArith Bool.
+From PKO Require Import Base Owner Api Phase AdoptionProofs PhaseProofs AdoptProofs.
+Import ListNotations.
+
+(** The decision ladder is the property's predicate, for every object state, owner, previous list,
+    collisionProtection value, both owner strategies and forced adoption on or off. *)
+Theorem C01_adopt_iff_permitted :
+  forall s force ow o prev cp, is_controller s (ow_id ow) o = false ->
+    (check_adoption s force ow o prev cp = Adopt <-> permitted s force ow o prev cp = true).
+Proof. exact check_adopt_iff. Qed.
+Print Assumptions C01_adopt_iff_permitted.
+
+Theorem C01_refusal_iff :
+  forall s force ow o prev cp, is_controller s (ow_id ow) o = false ->
+    (is_refusal (check_adoption s force ow o prev cp) = true <->
+     permitted s force ow o prev cp = false /\ newer ow o = false /\ rev_unparsable o = false).
+Proof. exact check_refuse_iff. Qed.
+Print Assumptions C01_refusal_iff.
+
+Theorem C01_newer_left_alone_iff :
+  forall s force ow o prev cp, is_controller s (ow_id ow) o = false ->
+    (check_adoption s force ow o prev cp = LeaveNewer <-> newer ow o = true).
+Proof. exact check_leave_iff. Qed.
+Print Assumptions C01_newer_left_alone_iff.
+
+(** Every write request of a rollout pass over any phase, in any world, with any third party acting
+    between the pass's reads and writes, is an apply on a listed object issued by an unpaused owner and
+    justified by the version the pass read: absent, already controlled, or adoption permitted. *)
+Theorem C01_every_write_justified :
+  forall c between ow prev ps w acc failed w' evs r,
+    reconcile_objects c between w ow prev ps acc failed = (w', evs, r) ->
+    Forall (ev_justified c ow prev ps) evs.
+Proof. exact rec_objs_justified. Qed.
+Print Assumptions C01_every_write_justified.
+
+(** An existing object that is not controlled and may not be adopted under any entry naming it is
+    byte-identical after the pass and no request names it (pass-level atomicity). *)
+Theorem C01_untouched :
+  forall c ow prev k o ps w acc failed w' evs r,
+    reconcile_objects c idw w ow prev ps acc failed = (w', evs, r) ->
+    lookup k (w_store w) = Some o -> is_controller (flavor_strat (c_flavor c)) (ow_id ow) o = false ->
+    not_permitted_any c ow prev ps k o ->
+    lookup k (w_store w') = Some o /\ Forall (fun e => ev_key e <> k) evs.
+Proof. exact rec_objs_untouched. Qed.
+Print Assumptions C01_untouched.
+
+(** The refusal is reported: a pass that completes had nothing to refuse, and a collision error is
+    returned only for an object that had to be refused (it is turned into
+    Available=False/CollisionDetected by UpdateObjectSetOrPhaseStatusFromError, see C06/ObjectSet level). *)
+Theorem C01_completed_pass_refused_nothing :
+  forall c ow prev ps w acc failed w' evs a f,
+    reconcile_objects c idw w ow prev ps acc failed = (w', evs, PhOk a f) ->
+    ow_paused ow = false -> NoDup (map (key_of ow) ps) ->
+    forall p o, In p ps -> lookup (key_of ow p) (w_store w) = Some o -> ~ must_refuse c ow prev p o.
+Proof. exact rec_objs_ok_no_refusal. Qed.
+Print Assumptions C01_completed_pass_refused_nothing.
+
+Theorem C01_collision_error_sound :
+  forall c ow prev ps w acc failed w' evs e,
+    reconcile_objects c idw w ow prev ps acc failed = (w', evs, PhErr e) ->
+    (e = ErrNotPrevious \/ e = ErrRevCollision) -> NoDup (map (key_of ow) ps) ->
+    exists p o, In p ps /\ lookup (key_of ow p) (w_store w) = Some o /\ must_refuse c ow prev p o.
+Proof. exact rec_objs_collision_sound. Qed.
+Print Assumptions C01_collision_error_sound.
+
+(** Conversely a permitted adoption is carried out: after a completed pass the object is controlled by
+    the owner (well-formed owner list: unique UIDs, UIDs identify owners). *)
+Theorem C01_permitted_adoption_carried_out :
+  forall c ow prev ps w acc failed w' evs a f,
+    reconcile_objects c idw w ow prev ps acc failed = (w', evs, PhOk a f) ->
+    ow_paused ow = false -> NoDup (map (key_of ow) ps) ->
+    forall p o, In p ps ->
+      (match flavor_strat (c_flavor c) with Native => validate_owner (ow_id ow) (k_ns (key_of ow p)) = true | Annot => True end) ->
+      lookup (key_of ow p) (w_store w) = Some o ->
+      is_controller (flavor_strat (c_flavor c)) (ow_id ow) o = false ->
+      permitted (flavor_strat (c_flavor c)) (c_force c) ow o prev (po_cp p) = true ->
+      obj_wf (flavor_strat (c_flavor c)) (ow_id ow) o ->
+      exists o', lookup (key_of ow p) (w_store w') = Some o' /\ adopted c ow o o'.
+Proof. exact rec_objs_adopt. Qed.
+Print Assumptions C01_permitted_adoption_carried_out.
+
+(** Non-vacuity: a concrete foreign-controlled ConfigMap under Prevent is refused, under None adopted. *)
+Example C01_example_refuse_and_adopt :
+  let ow := {| ow_id := {| oi_kind := 1; oi_ns := 1; oi_name := 10; oi_uid := 100 |}; ow_rev := 5; ow_paused := false; ow_pkg := 0 |} in
+  let o := {| o_uid := 7; o_rv := 3; o_gen := 1; o_owners := [{| r_kind := 9; r_name := 50; r_uid := 500; r_ctrl := true |}];
+              o_aowners := []; o_rev := RevNum 4; o_cache := true; o_pkg := 0; o_body := 2; o_avail := 0; o_obsgen := None;
+              o_deleting := false; o_fin := false |} in
+  check_adoption Native false ow o [] CPPrevent = RefuseNotPrevious /\
+  check_adoption Native false ow o [] CPNone = Adopt /\
+  permitted Native false ow o [] CPPrevent = false /\ permitted Native false ow o [] CPNone = true.
+Proof. vm_compute. repeat split. Qed.
